@@ -11,9 +11,9 @@
 (***************************************************************************)
 EXTENDS Integers, Sequences, FiniteSets, SequencesExt, TLC
 
-CONSTANTS NSET, MAXD, B     \* mode sizes tried, maximal order, QTT mode size
-VARIABLES N, q, back
-vars == <<N, q, back>>
+CONSTANTS NSET, MAXD, BS    \* mode sizes tried, maximal order, QTT mode sizes (the optional argument mode_size)
+VARIABLES N, q, back, ms
+vars == <<N, q, back, ms>>
 
 RECURSIVE ILog(_, _)
 ILog(n, b) == IF n < b THEN 0 ELSE 1 + ILog(n \div b, b)       \* floor(log_b n), exact
@@ -38,13 +38,14 @@ Regroup(qs, orig, sofar, acc) ==
          ELSE Regroup(Tail(qs), orig, now, acc)
 
 Init == /\ \E d \in 1..MAXD : N \in [1..d -> NSET]
+        /\ ms \in BS
         /\ q = <<>> /\ back = <<>>
-ToQtt == /\ q = <<>> /\ QttOk(N, B)
-         /\ q' = QShape(N, B) /\ UNCHANGED <<N, back>>
+ToQtt == /\ q = <<>> /\ QttOk(N, ms)
+         /\ q' = QShape(N, ms) /\ UNCHANGED <<N, back, ms>>
 Back == /\ q # <<>> /\ back = <<>>
-        /\ back' = Regroup(q, N, 0, <<>>) /\ UNCHANGED <<N, q>>
+        /\ back' = Regroup(q, N, 0, <<>>) /\ UNCHANGED <<N, q, ms>>
 Spec == Init /\ [][ToQtt \/ Back]_vars
 
-AllB == q # <<>> => \A k \in 1..Len(q) : q[k] \in {B, 1}
+AllB == q # <<>> => \A k \in 1..Len(q) : q[k] \in {ms, 1}
 RoundTrip == back # <<>> => back = N
 =============================================================================
